@@ -52,9 +52,52 @@ pub fn c01(ctx: &Ctx) -> i32 {
         nontrivial: |c| c.trades > 0 && c.tie_insertions == 0,
         nontrivial_rule: "the history is clock-disciplined (no tie insertion) and produced at least one trade",
     };
-    let out = run_book_spec(ctx, &spec);
+    let mut out = run_book_spec(ctx, &spec);
+    // long histories: ids, trade log and counters beyond 2^16 on one book, judged at checkpoints (see extra.rs)
+    let n_long = ctx.tier.pick(16usize, 96usize);
+    let long_ops = ctx.tier.pick(110_000usize, 400_000usize);
+    let long = {
+        use std::sync::atomic::{AtomicUsize, Ordering};
+        use std::sync::Mutex;
+        let next = AtomicUsize::new(0);
+        let acc: Mutex<(u64, u64, u64, u64, u64, Vec<crate::report::Violation>)> = Mutex::new((0, 0, 0, 0, 0, Vec::new()));
+        std::thread::scope(|s| {
+            for _ in 0..ctx.threads.max(1) {
+                s.spawn(|| {
+                    crate::util::install_quiet_panic_hook();
+                    loop {
+                        let k = next.fetch_add(1, Ordering::Relaxed);
+                        if k >= n_long {
+                            break;
+                        }
+                        let seed = crate::util::Sm::derive(ctx.seed, 0x10_0000 + k as u64).next();
+                        let r = crate::util::catch(|| crate::extra::long_history::<bourse_book::OrderBook<10>>(seed, long_ops)).unwrap_or_else(|p| Err(format!("panic: {}", p)));
+                        let mut a = acc.lock().unwrap();
+                        match r {
+                            Ok(o) => {
+                                a.0 += o.ops;
+                                a.1 += o.orders;
+                                a.2 += o.trades;
+                                a.3 += o.checkpoints;
+                                a.4 = a.4.max(o.orders);
+                            }
+                            Err(e) => {
+                                if a.5.len() < 2 {
+                                    a.5.push(crate::report::Violation { signature: "C01:reference:long_history_differs".into(), summary: format!("long history (seed {}, {} operations): {}", seed, long_ops, truncate(&e, 600)), replay: json!({"kind": "c01_long", "seed": seed, "ops": long_ops}) });
+                                }
+                            }
+                        }
+                    }
+                });
+            }
+        });
+        acc.into_inner().unwrap()
+    };
+    out.violations.extend(long.5);
     let c = &out.census;
     let inconclusive = floors(&[
+        ("long_history_orders_max", long.4, 65_537),
+        ("long_history_checkpoints", long.3, 100),
         ("trades", c.trades, 1000),
         ("partial_fills_passive", c.partial_fills_passive, 100),
         ("multi_level_sweeps", c.multi_level_sweeps, 100),
@@ -66,6 +109,8 @@ pub fn c01(ctx: &Ctx) -> i32 {
         ("drains", c.drains, 1000),
     ]);
     let cov = book_coverage(&spec, &out, "Judged after every operation: order records, trade records, creation results, clock and (hook H2) the complete queue order of both sides, against the reference engine; tied histories are cut at the first tie insertion and left to C05.");
+    let mut cov = cov;
+    cov["long_histories"] = json!({"histories": n_long, "operations_each": long_ops, "operations": long.0, "orders": long.1, "trades": long.2, "checkpoints_compared_with_the_reference": long.3, "largest_number_of_orders_in_one_book": long.4});
     ctx.finish("exploration", cov, valid_history_assumptions(), out.violations, inconclusive)
 }
 
